@@ -269,7 +269,7 @@ Theorem move_target_good flags su stores r dst :
   In dst stores /\ ~ In (sid dst) (stores_of (peers r)) /\ up_store dst /\ su dst = false
   /\ (forall src, In src (stores_of (peers r)) -> src <> sid dst).
 Proof.
-  intros ->. unfold move_targets. intros H. apply filter_In in H as [Hin H].
+  intros ->. unfold move_targets, move_pred. intros H. apply filter_In in H as [Hin H].
   apply andb_true_iff in H as [H Hf]. apply andb_true_iff in H as [Hx Hs].
   apply negb_true_iff in Hx. apply negb_true_iff in Hs.
   assert (N : ~ In (sid dst) (stores_of (peers r))). { intros X. apply memZ_In in X. congruence. }
@@ -315,6 +315,23 @@ Proof.
   apply Z.eqb_eq in Hst. apply negb_true_iff in Hlr. apply negb_true_iff in Hl. apply Z.eqb_neq in Hl.
   split; [exists p; repeat split; assumption|]. rewrite <- Hst. exact Hl.
 Qed.
+
+(* ---------- "may only remove candidates" ---------- *)
+(* The filters the models do not transcribe (placement safeguard / rule-fit filter, RegionScoreFilter, shouldBalance, the load
+   tolerance of hot-region's pickDstStores, random picks) are applied IN CONJUNCTION with the modelled ones
+   (filter.Target = all filters must pass; pinned by pin_src_filter_Target / pin_src_hot_pickDstStores in proof/C11_Pins.v): whatever they are, the
+   stores that survive them are among the model's admissible targets.  So the set-valued model is a superset of what the code
+   can choose, and every theorem about all admissible targets covers the code's choice. *)
+Theorem more_filters_only_remove flags su stores r (extra : store -> bool) dst :
+  In dst (filter (fun s => move_pred flags su r s && extra s) stores) -> In dst (move_targets flags su stores r).
+Proof.
+  intros H. apply filter_In in H as [Hin H]. apply andb_true_iff in H as [H _].
+  unfold move_targets. apply filter_In. split; assumption.
+Qed.
+
+Theorem more_filters_only_remove_leader flags stores r (extra : store -> bool) dst :
+  In dst (filter extra (leader_targets flags stores r)) -> In dst (leader_targets flags stores r).
+Proof. intros H. apply filter_In in H as [H _]. exact H. Qed.
 
 (* ---------- the scatter leader ---------- *)
 (* whenever some target store without an engine label accepts leaders, the store chosen for the leader is a target store
